@@ -164,6 +164,9 @@ func c18Backend(b *Batch, idx int) {
 		if rng.Intn(6) == 0 {
 			// a big cache: thousands of entries, dozens per shard
 			bulk := 3000 + rng.Intn(5000)
+			if rng.Intn(4) == 0 {
+				bulk = 66000 + rng.Intn(30000) // many hundreds per shard
+			}
 			for i := 0; i < bulk; i++ {
 				k := fmt.Sprintf("bulk-%d-%d", ph, i)
 				be.Write(bg, []byte(k), "b")
